@@ -3,14 +3,27 @@
    the grid.
    Toy generators: the literal instances of generator.py are well-formed, tile their solved grid, and playing the
    tiling through the model's step (every action accepted by the mask) ends on exactly the generator's solved grid.
-   RandomFlatPackGenerator: REFUTED.  For the draws recovered from RandomFlatPackGenerator(2,2)(PRNGKey(6)) the solved
-   grid is a perfect tiling by connected blocks inside their 3x3 windows (tiling_ok_b), but the block set the generator
-   emits (each block cropped to the top-left of its 3x3 box by _crop_nonzero, rotated, shuffled) has NO exact tiling
-   inside the action space (rows 0..R-3, cols 0..C-3, the only starts dynamic_update_slice does not clamp):
-   [solvable_b = false] by vm_compute, and [solvable_b_complete] proves the search complete for ALL sizes.
-   Not proved (only checked by the verified boolean [tiling_ok_b] on every generated instance, model and implementation):
-   that [solved_grid] is such a tiling for every size and every draw.                                          *)
-Require Import JV.Base.Prelude JV.Base.JaxIndex JV.Base.Codec JV.Base.TimeStep JV.Model.FlatPack JV.Proofs.FlatPack JV.Proofs.FlatPack_Pack JV.Proofs.FlatPack_Solve JV.Proofs.FlatPack_Gen.
+   RandomFlatPackGenerator, tiling part (PROVED for every size and every valid draw): the solved grid written by the two
+   fill scans and the column / row interlock scans is an exact tiling -- every cell carries one block id in
+   1..num_blocks, every block is non-empty, lies in a 3x3 box inside the grid and is 4-connected ([ExactTiling]); the
+   verified checker [tiling_ok_b] accepts it, and [tiling_ok_b] is sound for [ExactTiling] on ANY grid (so the harness
+   check on the implementation's solved grid means the same thing).
+   RandomFlatPackGenerator, solvability part: the full statement is REFUTED (kept below).  For the draws recovered from
+   RandomFlatPackGenerator(2,2)(PRNGKey(6)) the block set the generator emits (each block cropped to the top-left of
+   its bounding box by _crop_nonzero, rotated, shuffled) has NO exact tiling inside the action space (rows 0..R-3,
+   cols 0..C-3, the only starts dynamic_update_slice does not clamp): [solvable_b = false] by vm_compute, and
+   [solvable_b_complete] proves the search complete for ALL sizes.
+   WHEN it is solvable (PROVED for every size and every valid draw): the generator's own solution (block k back at the
+   corner (first_row k, first_col k) of its bounding box, rotation undone) is an exact tiling inside the action space
+   <-> it is playable through step (every action accepted by the mask, final grid full) <-> [own_ok_b]: every block's
+   bounding-box corner has row <= R-3 and col <= C-3.  [own_ok_b] is therefore a sufficient condition for solvability
+   that the harness evaluates on every generated instance; it is not necessary ([own_ok_not_necessary]: a symmetric
+   block can be turned by 180 degrees instead).  [own_ok_b] read on the grid: every block of the last block row owns a
+   cell of row R-3 and every block of the last block column owns a cell of column C-3 (cropped height / width 3);
+   read on the draws ([keeps_top], [keeps_left]): the exact set of interlock draws for which it holds.  In general every [tiles_b]-accepted candidate is a real tiling
+   ([tiles_b] sound and complete) and every tiling is playable ([tiles_plays]).                                   *)
+Require Import JV.Base.Prelude JV.Base.JaxIndex JV.Base.Codec JV.Base.TimeStep JV.Model.FlatPack JV.Proofs.FlatPack JV.Proofs.FlatPack_Pack JV.Proofs.FlatPack_Solve JV.Proofs.FlatPack_Gen
+  JV.Proofs.FlatPack_Tiling JV.Proofs.FlatPack_Plays JV.Proofs.FlatPack_OwnSol JV.Proofs.FlatPack_OwnGrid.
 Theorem C10_FlatPack_toy_with_rotation :
   tiling_ok_b 2 2 toy_solved = true /\ inst_wf_b 4 toy_blocks_rot = true /\
   tiles_b toy_cf toy_blocks_rot toy_sol_rot = true /\ plays_b toy_cf toy_blocks_rot (sol_actions toy_sol_rot) = true /\
@@ -24,6 +37,46 @@ Proof. exact toy_norot_ok. Qed.
 Theorem C10_FlatPack_search_complete cf bl sol :
   3 <= cR cf -> 3 <= cC cf -> 0 <= cN cf -> blocks_ok (cN cf) bl -> tiles cf bl sol -> solvable_b cf bl = true.
 Proof. exact (solvable_b_complete cf bl sol). Qed.
+Theorem C10_FlatPack_random_generator_exact_tiling nrb ncb cd rd rots perm :
+  1 <= nrb -> 1 <= ncb -> valid_draw nrb ncb cd rd rots perm = true ->
+  tiling_ok_b nrb ncb (solved_grid nrb ncb cd rd) = true /\ ExactTiling nrb ncb (solved_grid nrb ncb cd rd).
+Proof. exact (random_generator_exact_tiling nrb ncb cd rd rots perm). Qed.
+Theorem C10_FlatPack_tiling_checker_sound nrb ncb g :
+  1 <= nrb -> 1 <= ncb -> tiling_ok_b nrb ncb g = true -> ExactTiling nrb ncb g.
+Proof. exact (tiling_ok_b_sound nrb ncb g). Qed.
+Theorem C10_FlatPack_tiles_b_sound cf bl sol : tiles_b cf bl sol = true -> tiles cf bl sol.
+Proof. exact (tiles_b_sound cf bl sol). Qed.
+Theorem C10_FlatPack_tiles_b_complete cf bl sol : tiles cf bl sol -> tiles_b cf bl sol = true.
+Proof. exact (tiles_b_complete cf bl sol). Qed.
+Theorem C10_FlatPack_tiling_playable cf bl sol :
+  3 <= cR cf -> 3 <= cC cf -> 0 <= cN cf -> blocks_ok (cN cf) bl -> tiles cf bl sol ->
+  plays_b cf bl (sol_actions sol) = true.
+Proof. exact (tiles_plays cf bl sol). Qed.
+Theorem C10_FlatPack_random_generator_own_solution nrb ncb K cd rd rots perm :
+  1 <= nrb -> 1 <= ncb -> valid_draw nrb ncb cd rd rots perm = true ->
+  let sg := solved_grid nrb ncb cd rd in
+  let cf := mkC (2 * nrb + 1) (2 * ncb + 1) (nrb * ncb) K in
+  let bl := gen_blocks nrb ncb sg rots perm in
+  let sol := own_solution nrb ncb sg rots perm in
+  (tiles cf bl sol <-> own_ok_b nrb ncb sg = true) /\
+  (plays_b cf bl (sol_actions sol) = true <-> own_ok_b nrb ncb sg = true) /\
+  (own_ok_b nrb ncb sg = true -> solvable_b cf bl = true).
+Proof. exact (random_generator_own_solution nrb ncb K cd rd rots perm). Qed.
+Theorem C10_FlatPack_own_ok_grid_iff nrb ncb g : 1 <= nrb -> 1 <= ncb -> tiling_ok_b nrb ncb g = true ->
+  (own_ok_b nrb ncb g = true <->
+   (forall b, 0 <= b < ncb -> exists j, 0 <= j < 2 * ncb + 1 /\ cell g (2 * nrb + 1 - 3) j = (nrb - 1) * ncb + b + 1) /\
+   (forall a, 0 <= a < nrb -> exists i, 0 <= i < 2 * nrb + 1 /\ cell g i (2 * ncb + 1 - 3) = a * ncb + (ncb - 1) + 1)).
+Proof. exact (own_ok_grid_iff nrb ncb g). Qed.
+Theorem C10_FlatPack_own_ok_draws_iff nrb ncb cd rd rots perm :
+  1 <= nrb -> 1 <= ncb -> valid_draw nrb ncb cd rd rots perm = true ->
+  (own_ok_b nrb ncb (solved_grid nrb ncb cd rd) = true <->
+   forallb (keeps_top nrb ncb cd rd) (zrange ncb) && forallb (keeps_left nrb ncb cd) (zrange nrb) = true).
+Proof. exact (own_ok_draws_iff nrb ncb cd rd rots perm). Qed.
+Theorem C10_FlatPack_own_ok_not_necessary :
+  valid_draw 2 2 nn_cd nn_rd nn_rots nn_perm = true /\
+  own_ok_b 2 2 (solved_grid 2 2 nn_cd nn_rd) = false /\
+  solvable_b (mkC 5 5 4 0) (gen_blocks 2 2 (solved_grid 2 2 nn_cd nn_rd) nn_rots nn_perm) = true.
+Proof. exact own_ok_not_necessary. Qed.
 Theorem C10_FlatPack_random_generator_refuted :
   exists cd rd rots perm,
     valid_draw 2 2 cd rd rots perm = true /\
@@ -32,6 +85,27 @@ Theorem C10_FlatPack_random_generator_refuted :
 Proof. exact random_generator_unsolvable_instance. Qed.
 Print Assumptions C10_FlatPack_random_generator_refuted.
 Print Assumptions C10_FlatPack_search_complete.
+Print Assumptions C10_FlatPack_random_generator_exact_tiling.
+Print Assumptions C10_FlatPack_tiling_checker_sound.
+Print Assumptions C10_FlatPack_tiles_b_sound.
+Print Assumptions C10_FlatPack_tiles_b_complete.
+Print Assumptions C10_FlatPack_tiling_playable.
+Print Assumptions C10_FlatPack_random_generator_own_solution.
+Print Assumptions C10_FlatPack_own_ok_grid_iff.
+Print Assumptions C10_FlatPack_own_ok_draws_iff.
 Example C10_FlatPack_nonvacuous :
   gen_blocks 2 2 (solved_grid 2 2 w_cd w_rd) w_rots w_perm = w_blocks /\ solvable_b toy_cf toy_blocks_rot = true /\ solvable_b toy_cf w_blocks = false.
+Proof. vm_compute. repeat split; reflexivity. Qed.
+(* the all-draws theorems are not vacuous: a valid 3 x 2 draw whose own solution IS playable, and the refuted 2 x 2
+   draw whose own solution is not *)
+Example C10_FlatPack_own_solution_nonvacuous :
+  let cd := [[true; false; true; false; false; true; false]] in
+  let rd := [[false; false; true; false; false]; [false; true; false; true; false]] in
+  let rots := [1; 0; 3; 2; 0; 1] in let perm := [4; 2; 0; 5; 1; 3] in
+  let sg := solved_grid 3 2 cd rd in
+  valid_draw 3 2 cd rd rots perm = true /\ own_ok_b 3 2 sg = true /\
+  tiles_b (mkC 7 5 6 0) (gen_blocks 3 2 sg rots perm) (own_solution 3 2 sg rots perm) = true /\
+  own_ok_b 2 2 (solved_grid 2 2 w_cd w_rd) = false /\
+  forallb (keeps_top 3 2 cd rd) (zrange 2) && forallb (keeps_left 3 2 cd) (zrange 3) = true /\
+  forallb (keeps_top 2 2 w_cd w_rd) (zrange 2) = false.
 Proof. vm_compute. repeat split; reflexivity. Qed.
